@@ -2,6 +2,8 @@
 import hashlib
 import itertools
 import multiprocessing as mp
+import re
+from pathlib import Path
 import common as C
 
 PROPERTIES = ["C02"]
@@ -9,7 +11,7 @@ MANIFEST = {
     "C02": {
         "technique": "Lean 4 proof: pointer-level model of HashMap/HashSet/PoolMap (cell back-pointers, nextCell chains, prev/next list with owned end sentinel, free list, 4-item blocks) simulated by a chain-list model, which refines an insertion-ordered association list, for every capacity, hash function and op list (induction over op lists) + differential correspondence of both models vs the real headers",
         "text": "Theorems over all operation histories, all capacities >= 1 and all hash functions (hence every collision pattern) of the Lean models: results, iteration, equality and returned iterators equal those of the association-list specification; chains partition the live items by hash % capacity; cell back-pointers designate the referring cell; an existing key keeps its position (HashMap updates the value, HashSet/PoolMap untouched); String hash reads stay in bounds. The models are tied to the current HashMap.hpp/HashSet.hpp/PoolMap.hpp on every run by executing identical op lines on the real code and on both models in lock-step (exhaustive small scope + random histories, capacities 0,1,2,3,8,500, five hash functions incl. constant, ASan/UBSan, forward/backward traversal, white-box comparison of every bucket chain, the free list and the order list as canonical item ids; a second build with nstd String keys and the library's hash(const String&) whose key texts collide; a third build with -O2 and no sanitizers) and by an independent Python association-list reference.",
-        "note": "Trusted: Lean kernel + the three standard axioms; hand translation of the headers into the pointer-level model PtrModel.lean (validated by the correspondence run, not proved). Abstractions of that model: one node heap per table (swap exchanges heaps as the code exchanges `blocks`), item addresses are block*4+slot numbers, loops carry a fuel argument (proved sufficient: no reachable fault), keys/values are naturals with = (hash/== of the key type consistent), allocation never fails, destructors/constructors of elements are no-ops. Self-assignment/self-append (a = a) and element life-cycle are outside (property C04). hash(const String&) value is modelled for 64-bit usize and checked by the correspondence only; its in-bounds theorem is about the three indices.",
+        "note": "Trusted: Lean kernel + the three standard axioms; hand translation of the headers into the pointer-level model PtrModel.lean (validated by the correspondence run, not proved). The class constants items-per-block and default capacity are read from the current headers by a translator (refuses when allocation size and fill-loop bound differ) and the theorems hold for every value >= 1. Abstractions of that model: one node heap per table (swap exchanges heaps as the code exchanges `blocks`), item addresses are block*4+slot numbers, loops carry a fuel argument (proved sufficient: no reachable fault), keys/values are naturals with = (hash/== of the key type consistent), allocation never fails, destructors/constructors of elements are no-ops. Self-assignment/self-append (a = a) and element life-cycle are outside (property C04). hash(const String&) value is modelled for 64-bit usize and checked by the correspondence only; its in-bounds theorem is about the three indices.",
         "design_ref": "DESIGN.md 3/C02",
     }
 }
@@ -17,6 +19,104 @@ PROPS = ["Nstd.Hash.Props"]
 LEAN_TARGETS = PROPS + ["drv_hash"]
 DRIVER = "drv_hash"
 SOURCES = ["hash.cpp", C.REPO / "src/Memory.cpp", C.REPO / "src/String.cpp"]
+
+# ---- translator: class constants of the current sources -> lean/Nstd/Generated/HashConst.lean -----------------
+GEN_OUT = C.LEAN / "Nstd" / "Generated" / "HashConst.lean"
+HEADERS = {"Map": ("HashMap", "include/nstd/HashMap.hpp"), "Set": ("HashSet", "include/nstd/HashSet.hpp"),
+           "Pool": ("PoolMap", "include/nstd/PoolMap.hpp")}
+
+
+def _strip(src):
+    src = re.sub(r"/\*.*?\*/", " ", src, flags=re.S)
+    return re.sub(r"//[^\n]*", "", src)
+
+
+def _resolve(tok, src):
+    """integer value of a literal or of a constant named in the header (enum member / static const / #define)"""
+    if re.fullmatch(r"\d+", tok):
+        return int(tok)
+    for rx in (r"enum\s*\w*\s*\{[^}]*\b" + tok + r"\s*=\s*(\d+)", r"static\s+const\s+\w+\s+" + tok + r"\s*=\s*(\d+)\s*;",
+               r"#\s*define\s+" + tok + r"\s+(\d+)"):
+        m = re.search(rx, src)
+        if m:
+            return int(m.group(1))
+    return None
+
+
+def read_constants(repo=None):
+    """{'Map': (items per block, default capacity), ...} or raises ValueError.  The block size is the `N` of
+    `new char[sizeof(ItemBlock) + sizeof(Item) * N]`; the fill loop `* end = <first> + N` must use the same value
+    (otherwise the loop would run past the block or leave items unused: not a tie the model can follow).  The default
+    capacity is the `capacity(N)` initialiser of the default constructor; the copy constructor must use the same."""
+    repo = Path(repo or C.REPO)
+    res = {}
+    for tag, (cls, rel) in HEADERS.items():
+        src = _strip((repo / rel).read_text())
+        al = re.findall(r"new\s+char\s*\[\s*sizeof\s*\(\s*ItemBlock\s*\)\s*\+\s*sizeof\s*\(\s*Item\s*\)\s*\*\s*(\w+)\s*\]", src)
+        lp = re.findall(r"\*\s*end\s*=\s*\w+\s*\+\s*(\w+)\s*;", src)
+        if len(al) != 1 or len(lp) != 1:
+            raise ValueError(f"{cls}: block allocation {al} / fill loop bound {lp}: expected exactly one of each")
+        a, l = _resolve(al[0], src), _resolve(lp[0], src)
+        if a is None or l is None:
+            raise ValueError(f"{cls}: cannot evaluate items per block ({al[0]} / {lp[0]})")
+        if a != l:
+            raise ValueError(f"{cls}: the block is allocated for {a} items but the free-list fill loop covers {l}")
+        if a < 1:
+            raise ValueError(f"{cls}: {a} items per block")
+        dc = re.findall(cls + r"\s*\(\s*\)\s*:[^{;]*?\bcapacity\s*\(\s*(\w+)\s*\)", src)
+        cc = re.findall(cls + r"\s*\(\s*const\s+" + cls + r"\s*&\s*\w*\s*\)\s*:[^{;]*?\bcapacity\s*\(\s*(\w+)\s*\)", src)
+        if len(dc) != 1 or len(cc) > 1:
+            raise ValueError(f"{cls}: capacity initialiser of the default constructor {dc} / copy constructor {cc} not found")
+        d = _resolve(dc[0], src)
+        c = _resolve(cc[0], src) if cc else d
+        if d is None or c is None or d < 1:
+            raise ValueError(f"{cls}: cannot evaluate the default capacity ({dc} / {cc})")
+        if c != d:
+            raise ValueError(f"{cls}: default constructor capacity {d} but copy constructor capacity {c} (the model has one constant)")
+        res[tag] = (a, d)
+    return res
+
+
+def translate(repo=None):
+    try:
+        k = read_constants(repo)
+    except (OSError, ValueError) as e:
+        return False, str(e)
+    text = ("/- generated by tools/areas/hash.py (translate) from include/nstd/{HashMap,HashSet,PoolMap}.hpp - do not edit -/\n"
+            "namespace Nstd.Generated.Hash\n\n")
+    for tag, (cls, _) in HEADERS.items():
+        text += (f"/-- `new char[sizeof(ItemBlock) + sizeof(Item) * N]` and `end = … + N` in `{cls}::insert` -/\n"
+                 f"def itemsPerBlock{tag} : Nat := {k[tag][0]}\n"
+                 f"/-- `capacity(N)` of `{cls}()` (and of the copy constructor) -/\n"
+                 f"def defaultCapacity{tag} : Nat := {k[tag][1]}\n\n")
+    text += "end Nstd.Generated.Hash\n"
+    GEN_OUT.parent.mkdir(parents=True, exist_ok=True)
+    if not GEN_OUT.exists() or GEN_OUT.read_text() != text:
+        GEN_OUT.write_text(text)
+    return True, " ".join(f"{t}:{v[0]}/{v[1]}" for t, v in k.items())
+
+
+def gen(ctx):
+    ok, msg = translate()
+    if ctx is not None:
+        ctx.cov.setdefault("translated", "items per block / default capacity " + msg)
+    return ok, msg
+
+
+def setup():
+    ok, msg = translate()
+    if not ok:
+        print("hash translate:", msg)
+
+
+def ipb_flags():
+    """compile flags that tell the harness the items-per-block constants (for the canonical item ids of `wb` lines)"""
+    try:
+        k = read_constants()
+    except (OSError, ValueError):
+        return []
+    return [f"-DHASH_IPB_MAP={k['Map'][0]}", f"-DHASH_IPB_SET={k['Set'][0]}", f"-DHASH_IPB_POOL={k['Pool'][0]}"]
+
 
 NOT_AVAILABLE = {
     "map": {"removeVal", "appendAll", "removeAll"},
@@ -388,8 +488,8 @@ def check(ctx):
         "iterators passed to insert/remove designate a live item of the same container (or end() for insert); removeFront/removeBack/front/back need a non-empty container",
         "allocation never fails; usize is 64 bit for the String hash",
     ]
-    proof_ok = C.proof_stage(ctx, PROPS, [DRIVER], leanchecker=(ctx.tier == "thorough"))
-    harness = C.build_harness(ctx, "hash", SOURCES)
+    proof_ok = C.proof_stage(ctx, PROPS, [DRIVER], gen=gen, leanchecker=(ctx.tier == "thorough"))
+    harness = C.build_harness(ctx, "hash", SOURCES, extra_flags=ipb_flags())
     if harness is None or not C.driver_path(DRIVER).exists():
         return
     try:
@@ -424,7 +524,7 @@ def extra_streams(ctx, hs):
     n = 3000 if quick else 60000
     hstr = None
     try:
-        hstr = C.build_harness(ctx, "hash_str", SOURCES, extra_flags=["-DKEY_STRING"])
+        hstr = C.build_harness(ctx, "hash_str", SOURCES, extra_flags=["-DKEY_STRING"] + ipb_flags())
         if hstr is not None:
             ss = [h for h in C.load_corpus(ctx.prop) if is_string_history(h)]
             ss += [gen_history(rng, rng.choice([5, 10, 20, 40]), mode=5, origins=True) for _ in range(n)]
@@ -454,7 +554,7 @@ def extra_streams(ctx, hs):
                 pass
     hopt = None
     try:
-        hopt = C.build_harness(ctx, "hash_o2", SOURCES, extra_flags=["-O2"], sanitize=False)
+        hopt = C.build_harness(ctx, "hash_o2", SOURCES, extra_flags=["-O2"] + ipb_flags(), sanitize=False)
         if hopt is not None:
             oo = [h for h in hs if len(h) > 12][:n * 2]
             before = ctx.cov["evaluations"]
@@ -479,11 +579,12 @@ def replay(ctx, path):
         or any(l.startswith("origin ") for l in h)
     o2 = "hash-ops-O2" in text
     if string_keys:
-        harness = C.build_harness(ctx, "hash_str", SOURCES, extra_flags=["-DKEY_STRING"])
+        harness = C.build_harness(ctx, "hash_str", SOURCES, extra_flags=["-DKEY_STRING"] + ipb_flags())
     elif o2:
-        harness = C.build_harness(ctx, "hash_o2", SOURCES, extra_flags=["-O2"], sanitize=False)
+        harness = C.build_harness(ctx, "hash_o2", SOURCES, extra_flags=["-O2"] + ipb_flags(), sanitize=False)
     else:
-        harness = C.build_harness(ctx, "hash", SOURCES)
+        harness = C.build_harness(ctx, "hash", SOURCES, extra_flags=ipb_flags())
+    translate()
     C.lake_build([DRIVER])
     diffs = C.differential(ctx, harness, C.driver_path(DRIVER), [h], reference, C.default_eq)
     for d in diffs:
